@@ -295,7 +295,7 @@ PROPS = {
                         "date.NewPartition behaves as the C11 model (established by C11's exhaustive correspondence)"],
     },
     "C11": {
-        "lean": ["Knut.Properties.C11", "Knut.Properties.C11Monitor", "Knut.FactsAgree.TransDate"],
+        "lean": ["Knut.Properties.C11", "Knut.Properties.C11Monitor", "Knut.FactsAgree.TransDate", "Knut.Properties.C11Go"],
         "level": "proof",
         "claim": "Lean theorems for all windows, all six intervals and all --last values over the model of lib/common/date: periods are consecutive, "
                  "cover the window exactly, are pairwise disjoint, lie within one calendar unit, start at the window start or a unit start, --last n keeps the n "
@@ -317,7 +317,7 @@ PROPS = {
                         "sort.Search in Partition.Align is modelled as a linear search over the (strictly increasing) period ends"],
     },
     "C12": {
-        "lean": ["Knut.Properties.C12", "Knut.FactsAgree.TransPrice"],
+        "lean": ["Knut.Properties.C12", "Knut.FactsAgree.TransPrice", "Knut.Properties.C12Go"],
         "level": "proof",
         "claim": "Lean theorems for all lists of price declarations (any graph: trees, alternative paths, cycles, disconnected parts, redeclarations in any order), "
                  "all valuation commodities, over the model of lib/model/price/prices.go (Insert/addPrice, the breadth-first Normalize with its queue and result map, "
